@@ -199,7 +199,7 @@ def parse_printed_json(out, prefix):
     return res
 
 
-_BOUNDARY = ('{"ev":"Init"', '{"ev":"Start"', '{"ev":"Conflict"', '{"ev":"Pipe"', '{"ev":"Mut"', '{"ev":"Cli"')
+_BOUNDARY = ('{"ev":"Init"', '{"ev":"Start"', '{"ev":"Conflict"', '{"ev":"Pipe"', '{"ev":"Mut"', '{"ev":"Cli"', '{"ev":"Case"')
 
 
 def split_shards(shards, max_lines=700, min_bytes=1500000):
